@@ -172,6 +172,8 @@ impl FileDesc {
                 object.transfer_length,
                 oti.encoding_symbol_length as u64,
             );
+            // The number of source blocks (Z) of the FTI is at least 1, also for an empty object
+            let nb_blocks = nb_blocks.max(1);
 
             if oti.fec_encoding_id == oti::FECEncodingID::RaptorQ {
                 if oti.scheme_specific.is_none() {
